@@ -191,6 +191,28 @@ struct __redu_list {
   T *data;
   size_t size;
   __redu_list() : data(nullptr), size(0) {}
+  // a list owns its buffer: copies are deep and the buffer dies with the list
+  __redu_list(const __redu_list &other) : data(nullptr), size(0) {
+    __redu_copy_from(other);
+  }
+  __redu_list &operator=(const __redu_list &other) {
+    if (this != &other) {
+      T *previous = data;
+      __redu_copy_from(other);
+      delete[] previous;
+    }
+    return *this;
+  }
+  ~__redu_list() {
+    delete[] data;
+  }
+  void __redu_copy_from(const __redu_list &other) {
+    size = other.size;
+    data = size ? new T[size] : nullptr;
+    for (size_t i = 0; i < size; ++i) {
+      data[i] = other.data[i];
+    }
+  }
 };
 
 template <typename T>
